@@ -4,7 +4,10 @@
    deadline, send-loop iterations whose write succeeds or fails, deadlines firing and their notification greenlet
    running at any later point, ARBITRARY peer frames (any type, any tag: 0, 1, unknown, duplicate, premature),
    short frames, pings, shutdown, re-open; and over every outcome of set.pop().  [cf] is the transport
-   configuration (TagPool size, ThriftMux or Kafka); the real one is [real_cfg]: max_tag = 2^24 - 1. *)
+   configuration (TagPool size, ThriftMux or Kafka, and the high-water mark [base] the pool of every new connection
+   starts from); the real one is [real_cfg]: max_tag = 2^24 - 1, base = 1.  The theorems hold for EVERY base >= 1,
+   i.e. also from a pool that has already handed out the tags 2..base (the fast-forwarded pools of the
+   correspondence runs around 2^16 and 2^24-2 are inside their scope). *)
 From Scales Require Import Model.Base Model.MuxTags Proofs.MuxTagsP.
 Local Open Scope Z_scope.
 
@@ -18,7 +21,7 @@ Theorem C11_range : forall cf ls k t x,
   | KPing => t = 1
   end.
 Proof.
-  intros cf ls k t x H Hin. pose proof (trace_frames cf ls init _ (SInv_init cf H) Hin) as F.
+  intros cf ls k t x H Hin. pose proof (trace_frames cf ls (proj1 H) (start cf) _ (SInv_init cf (proj2 H)) Hin) as F.
   destruct k; exact F.
 Qed.
 Print Assumptions C11_range.
@@ -36,14 +39,16 @@ Theorem C11_reserved : forall cf ls t,
   1 <= base cf <= max_tag cf - 1 ->
   let s := exec cf (start cf) ls in
   In t (p_free (pl s)) \/ In t (keys (tmap s)) \/ (exists c, In (QReq t c) (sendq s)) ->
-  2 <= t <= p_next (pl s) /\ p_next (pl s) <= max_tag cf - 1.
+  2 <= base cf + 1 <= t /\ t <= p_next (pl s) /\ p_next (pl s) <= max_tag cf - 1.
 Proof.
-  intros cf ls t H s Hin. pose proof (SInv_reach cf ls H) as I. fold s in I.
-  pose proof (i_next _ _ I) as Hn. split; [|lia].
-  destruct Hin as [Hf|[Hk|(c & Hq)]].
-  - apply (i_range _ _ I). apply in_or_app. left. assumption.
-  - apply (i_range _ _ I). apply in_or_app. right. assumption.
-  - apply (i_qrange _ _ I t c). unfold qreqs. apply in_flat_map. exists (QReq t c). split; [assumption | left; reflexivity].
+  intros cf ls t H s Hin. pose proof (SInv_reach cf ls (proj2 H)) as I. fold s in I.
+  pose proof (i_next _ _ I) as Hn.
+  assert (R : base cf + 1 <= t <= p_next (pl s)).
+  { destruct Hin as [Hf|[Hk|(c & Hq)]].
+    - apply (i_range _ _ I). apply in_or_app. left. assumption.
+    - apply (i_range _ _ I). apply in_or_app. right. assumption.
+    - apply (i_qrange _ _ I t c). unfold qreqs. apply in_flat_map. exists (QReq t c). split; [assumption | left; reflexivity]. }
+  lia.
 Qed.
 Print Assumptions C11_reserved.
 
@@ -53,10 +58,10 @@ Theorem C11_unique : forall cf ls,
   1 <= base cf <= max_tag cf - 1 ->
   let s := exec cf (start cf) ls in
   NoDup (p_free (pl s) ++ keys (tmap s)) /\
-  (closed s = false -> forall t, 2 <= t <= p_next (pl s) <-> In t (p_free (pl s) ++ keys (tmap s))) /\
-  (closed s = false -> Z.of_nat (length (p_free (pl s)) + length (tmap s)) = p_next (pl s) - 1).
+  (closed s = false -> forall t, base cf + 1 <= t <= p_next (pl s) <-> In t (p_free (pl s) ++ keys (tmap s))) /\
+  (closed s = false -> Z.of_nat (length (p_free (pl s)) + length (tmap s)) = p_next (pl s) - base cf).
 Proof.
-  intros cf ls H s. pose proof (SInv_reach cf ls H) as I. fold s in I. split; [apply (i_nodup _ _ I)|]. split.
+  intros cf ls H s. pose proof (SInv_reach cf ls (proj2 H)) as I. fold s in I. split; [apply (i_nodup _ _ I)|]. split.
   - intros Hc t. split; [apply (i_cover _ _ I Hc) | apply (i_range _ _ I)].
   - intros Hc. pose proof (i_count _ _ I Hc) as E. unfold L, keys in E. rewrite app_length, map_length in E. exact E.
 Qed.
@@ -67,7 +72,7 @@ Print Assumptions C11_unique.
 Theorem C11_unique_wire : forall cf ls,
   1 <= base cf <= max_tag cf - 1 -> NoDup (map fst (unanswered (trace cf (start cf) ls))).
 Proof.
-  intros cf ls H. exact (t_uniq _ _ _ (TInv_reach cf ls H)).
+  intros cf ls H. exact (t_uniq _ _ _ (TInv_reach cf ls (proj2 H))).
 Qed.
 Print Assumptions C11_unique_wire.
 
@@ -75,7 +80,7 @@ Print Assumptions C11_unique_wire.
 Theorem C11_unanswered_hold : forall cf ls t c,
   1 <= base cf <= max_tag cf - 1 -> In (t, c) (unanswered (trace cf (start cf) ls)) -> In (t, c) (tmap (exec cf (start cf) ls)).
 Proof.
-  intros cf ls t c H. exact (t_out _ _ _ (TInv_reach cf ls H) t c).
+  intros cf ls t c H. exact (t_out _ _ _ (TInv_reach cf ls (proj2 H)) t c).
 Qed.
 Print Assumptions C11_unanswered_hold.
 
@@ -91,11 +96,11 @@ Theorem C11_release_points : forall cf ls l t,
                   lookup t (tmap s) = Some c /\ snd (step cf s l) = [EDropped t c] /\
                   forall k t', ~ In (EWritten k t' c) (trace cf (start cf) ls) \/ k <> KReq).
 Proof.
-  intros cf ls l t H s Hin Hn. pose proof (SInv_reach cf ls H) as I. fold s in I.
+  intros cf ls l t H s Hin Hn. pose proof (SInv_reach cf ls (proj2 H)) as I. fold s in I.
   destruct (step_release_points cf s l t I Hin Hn) as [A|(io & c & q & E1 & E2 & E3 & E4 & E5)]; [left; exact A|].
   right. exists io, c, q. repeat split; try assumption.
   intros k t'. destruct k; try (right; discriminate). left. intros Hw.
-  pose proof (TInv_reach cf ls H) as T. fold s in T.
+  pose proof (TInv_reach cf ls (proj2 H)) as T. fold s in T.
   apply (t_qwr _ _ _ T t c); [rewrite E2, qreqs_req; left; reflexivity|].
   unfold written. apply in_flat_map. exists (EWritten KReq t' c). split; [assumption | left; reflexivity].
 Qed.
@@ -107,11 +112,11 @@ Theorem C11_reuse : forall cf ls l,
   let s := exec cf (start cf) ls in
   let s' := fst (step cf s l) in
   p_next (pl s') <> p_next (pl s) ->
-  (p_free (pl s) = [] /\ p_next (pl s') = p_next (pl s) + 1 /\ Z.of_nat (length (tmap s')) = p_next (pl s') - 1 /\
+  (p_free (pl s) = [] /\ p_next (pl s') = p_next (pl s) + 1 /\ Z.of_nat (length (tmap s')) = p_next (pl s') - base cf /\
    exists c dl pick, l = Req c dl pick) \/
-  (l = Reopen /\ p_next (pl s') = 1).
+  (l = Reopen /\ p_next (pl s') = base cf).
 Proof.
-  intros cf ls l H s s' Hne. pose proof (SInv_reach cf (ls ++ [l]) H) as I'.
+  intros cf ls l H s s' Hne. pose proof (SInv_reach cf (ls ++ [l]) (proj2 H)) as I'.
   rewrite exec_snoc in I'. fold s in I'. fold s' in I'.
   destruct (step_next cf s l) as [A|[(Ef & Ef' & _ & Ec' & En & Hl)|B]]; [contradiction| |right; exact B].
   left. repeat split; try assumption.
@@ -123,9 +128,9 @@ Print Assumptions C11_reuse.
 (* Hence the number of tags ever created on a connection is bounded by the largest number of simultaneously
    unanswered (queued, in flight, or timed out but not yet answered) requests. *)
 Theorem C11_reuse_peak : forall cf ls,
-  1 <= base cf <= max_tag cf - 1 -> p_next (pl (exec cf (start cf) ls)) - 1 <= peak cf (start cf) ls 0.
+  1 <= base cf <= max_tag cf - 1 -> p_next (pl (exec cf (start cf) ls)) - base cf <= peak cf (start cf) ls 0.
 Proof.
-  intros cf ls H. apply peak_next; [apply SInv_init, H | cbn; lia].
+  intros cf ls H. apply peak_next; [apply SInv_init, (proj2 H) | cbn; lia].
 Qed.
 Print Assumptions C11_reuse_peak.
 
@@ -154,7 +159,7 @@ Theorem C11_fill : forall mx n,
   2 <= mx ->
   iter_get mx n false pool_init = (negb (Z.of_nat n <=? mx - 2), {| p_free := []; p_next := Z.min (Z.of_nat n + 1) (mx - 1) |}).
 Proof.
-  intros mx n H. rewrite get_many_spec by (cbn; first [reflexivity | lia]). unfold get_many. cbn [p_next pool_init orb].
+  intros mx n H. unfold pool_init, pool_at. rewrite get_many_spec by (cbn; first [reflexivity | lia]). unfold get_many. cbn [p_next orb].
   replace (mx - 1 - 1) with (mx - 2) by lia.
   destruct (Z.leb_spec (Z.of_nat n) (mx - 2)); cbn [snd negb]; f_equal; f_equal; lia.
 Qed.
@@ -163,7 +168,7 @@ Print Assumptions C11_fill.
 (* Non-vacuity.  (1) A run with a premature reply, a time-out before and after transmission, adversarial frames on
    tags 1, 0 and 9, and tag reuse: the written frames are as expected.  (2) Exhaustion is reachable. *)
 Example C11_example_run :
-  trace (real_cfg false) init
+  trace (real_cfg false) (start (real_cfg false))
     [Req 1 1 0; Req 2 1 0; SendStep true; Fire 1; Notify 1; Fire 2; SendStep true; SendStep true;
      Recv (-2) 1; Recv (-2) 9; Recv (-2) 0; Req 3 0 3; Recv (-2) 2; Req 4 0 2; SendStep true; SendStep true; Ping; SendStep true]
   = [EEnq KReq 2 1; EEnq KReq 3 2; EWritten KReq 2 1; EEnq KDiscard 0 2; EDropped 3 2; EWritten KDiscard 0 2;
@@ -171,8 +176,16 @@ Example C11_example_run :
 Proof. vm_compute. reflexivity. Qed.
 
 Example C11_example_exhaustion :
-  let cf := {| max_tag := 4; kafka := false |} in
-  let s := exec cf init [Req 1 0 0; Req 2 0 0] in
+  let cf := {| max_tag := 4; kafka := false; base := 1 |} in
+  let s := exec cf (start cf) [Req 1 0 0; Req 2 0 0] in
   closed s = false /\ p_free (pl s) = [] /\ p_next (pl s) = max_tag cf - 1 /\ lookup 3 (calls s) = None /\
   snd (step cf s (Req 3 0 0)) = [ERaise 3].
 Proof. vm_compute. repeat split; reflexivity. Qed.
+
+(* (3) The real configuration fast-forwarded to the top of the tag space: 2^24-2 is the last tag, then refusal. *)
+Example C11_example_top :
+  let cf := {| max_tag := 16777215; kafka := false; base := 16777212 |} in
+  trace cf (start cf) [Req 1 0 0; Req 2 0 0; Req 3 0 0; SendStep true; SendStep true; Recv (-2) 16777213; Req 4 0 16777213; SendStep true]
+  = [EEnq KReq 16777213 1; EEnq KReq 16777214 2; ERaise 3; EWritten KReq 16777213 1; EWritten KReq 16777214 2;
+     EDelivered 1; EEnq KReq 16777213 4; EWritten KReq 16777213 4].
+Proof. vm_compute. reflexivity. Qed.
